@@ -132,6 +132,20 @@ func c17families() []c17family {
 			}
 			return c17gram(g, tick), s
 		}},
+		{"precedence chain of 5-7 left-recursive levels E1 -> E1 o1 E2 | E2 ; ... ; EL -> n", true, func(r *rand.Rand, n int, tick func(*parsley.Context)) (parsley.Parser, string) {
+			levels := 5 + r.Intn(3)
+			ops := "pqrstuv"
+			g := gram.New(ops[:levels-1]+"n", levels)
+			for i := 0; i < levels-1; i++ {
+				g.NTs[i] = g.Mk(gram.OpAny, g.Mk(gram.OpSeqOf, g.Ref(i), g.Rune(ops[i]), g.Ref(i+1)), g.Ref(i+1))
+			}
+			g.NTs[levels-1] = g.Rune('n')
+			s := "n"
+			for i := r.Intn(levels); len(s)+2 <= n; i++ {
+				s += string(ops[(i*3+i/2)%(levels-1)]) + "n"
+			}
+			return c17gram(g, tick), s
+		}},
 		{"mutual pair A -> B t | a ; B -> A u | d", true, func(r *rand.Rand, n int, tick func(*parsley.Context)) (parsley.Parser, string) {
 			l := c17letters(r, 4)
 			g := gram.New(string(l), 2)
@@ -264,6 +278,7 @@ type c17result struct {
 	calls  int
 	ok     bool
 	over   bool
+	capped bool // the limit in force was the absolute one
 	panicv string
 }
 
@@ -294,8 +309,17 @@ func c17corrupt(in string, where string) string {
 
 var c17variants = []string{"valid", "bad-first", "bad-second", "bad-middle", "bad-last"}
 
+// c17absolute: no run is allowed more parser calls than this, whatever the ratio limits chained over the sizes would
+// allow (16 per doubling compounds to 16^6): a case that gets there is inconclusive, it ends the family's size ladder.
+// The largest count on the unchanged tree is ~2.2*10^5 (quick) / ~10^6 (thorough).
+const c17absolute = 30000000
+
 func c17run(f c17family, seed int64, n int, limit int, where string) (res c17result, input string) {
 	r := rand.New(rand.NewSource(seed))
+	if limit <= 0 || limit > c17absolute {
+		limit = c17absolute
+		res.capped = true
+	}
 	tick := func(ctx *parsley.Context) {
 		if limit > 0 && ctx.CallCount() > limit {
 			panic(c17limit{limit})
@@ -365,6 +389,10 @@ func c17exec(j run.Job, a *run.Acc) {
 					}
 				}
 				base, in1 := c17run(f, seed, n, baseLimit, where)
+				if base.over && base.capped {
+					a.Count("inconclusive:absolute call budget of 3*10^7 reached", 1)
+					break
+				}
 				if base.over {
 					a.Violate("call-budget-exceeded-at-base-size", "call-budget-exceeded-at-base-size", map[string]any{"family": f.name, "variant_seed": seed, "n": n, "limit": baseLimit, "input": where, "input_n": trunc(in1, 80)})
 					break
@@ -400,6 +428,10 @@ func c17exec(j run.Job, a *run.Acc) {
 				if v == 0 {
 					a.SetMax("calls "+key, int64(base.calls))
 					a.SetMax("-calls "+key, -int64(base.calls))
+				}
+				if dbl.over && dbl.capped {
+					a.Count("inconclusive:absolute call budget of 3*10^7 reached", 1)
+					break
 				}
 				switch {
 				case dbl.panicv != "":
@@ -451,6 +483,9 @@ func init() {
 				"nested brackets, right recursion, separated lists (SepBy and left-recursive), expr/term/factor arithmetic; all unambiguous by construction. Hidden left recursion with the prefix present is ambiguous: run and reported, not judged. " +
 				"Counts must be identical over three runs with freshly constructed grammars and between two replicas executed in different worker processes. " +
 				"non-trivial = a judged pair within the bound; distinct = (family, variant, n)"
+			if k := a.Counters["inconclusive:absolute call budget of 3*10^7 reached"]; k > 0 {
+				return fmt.Sprintf("%d size ladders stopped at the absolute call budget", k)
+			}
 			if a.Counters["judged pairs within the bound"] == 0 && a.NViol == 0 {
 				return "no pair was judged"
 			}
